@@ -1,6 +1,6 @@
 //! C13 - comparison, hashing and Debug agree with the slice of the same elements.
 
-use generic_array::typenum::U3;
+use generic_array::typenum::{U0, U3};
 use generic_array::{ArrayLength, GenericArray};
 use harness::engine::{self, Acc, Args, Report};
 use harness::with_lat;
@@ -19,6 +19,10 @@ pub enum Ty {
     F64,
     Str,
     Nested,
+    /// zero-sized elements whose `Hash` still feeds the hasher: nested arrays of length 0 (each writes its length prefix)
+    NestedEmpty,
+    /// zero-sized elements whose `Hash` feeds nothing
+    Unit,
 }
 
 /// elements are given as small integers and mapped into the element type (F64: 0 NaN, 1 -0.0, 2 0.0, 3 1.0, 4 inf, else value)
@@ -257,6 +261,19 @@ fn exec_n<N: ArrayLength>(case: &Case) -> Result<(), String> {
             let b: Vec<GenericArray<u8, U3>> = case.b.iter().map(mk).collect();
             total::<GenericArray<u8, U3>, N>(&a, &b)
         }
+        Ty::NestedEmpty => {
+            let a: Vec<GenericArray<u8, U0>> = case.a.iter().map(|_| GenericArray::default()).collect();
+            let b: Vec<GenericArray<u8, U0>> = case.b.iter().map(|_| GenericArray::default()).collect();
+            total::<GenericArray<u8, U0>, N>(&a, &b)?;
+            // one more level: the elements are arrays of three zero-length arrays
+            let a2: Vec<GenericArray<GenericArray<u8, U0>, U3>> = case.a.iter().map(|_| GenericArray::default()).collect();
+            total::<GenericArray<GenericArray<u8, U0>, U3>, N>(&a2, &a2)
+        }
+        Ty::Unit => {
+            let a: Vec<()> = case.a.iter().map(|_| ()).collect();
+            let b: Vec<()> = case.b.iter().map(|_| ()).collect();
+            total::<(), N>(&a, &b)
+        }
     }
 }
 
@@ -269,6 +286,9 @@ pub fn exec(case: &Case, acc: &mut Acc) -> Result<(), String> {
     let shared = case.a.iter().zip(&case.b).take_while(|(x, y)| x == y).count();
     let has_nan = case.ty == Ty::F64 && (case.a.contains(&0) || case.b.contains(&0));
     acc.count(n >= 1 && (shared >= 1 || has_nan || case.a == case.b), case);
+    if matches!(case.ty, Ty::NestedEmpty | Ty::Unit) {
+        acc.class("zero_sized_elements");
+    }
     if has_nan {
         acc.class("with_NaN");
     }
@@ -297,6 +317,10 @@ fn exhaustive() -> Vec<Case> {
             }
         }
     }
+    for n in 0..=12 {
+        out.push(Case { ty: Ty::NestedEmpty, a: vec![0; n], b: vec![0; n] });
+        out.push(Case { ty: Ty::Unit, a: vec![0; n], b: vec![0; n] });
+    }
     for n in 0..=3 {
         let s = all(n, 5);
         for a in &s {
@@ -310,9 +334,9 @@ fn exhaustive() -> Vec<Case> {
 
 fn random_strategy() -> impl Strategy<Value = Case> {
     let lat = harness::lens::LAT;
-    (0..lat.len(), 0usize..5, any::<u16>(), any::<u64>(), 0u8..4).prop_map(move |(li, t, ps, seed, mode)| {
+    (0..lat.len(), 0usize..22, any::<u16>(), any::<u64>(), 0u8..4).prop_map(move |(li, t, ps, seed, mode)| {
         let n = lat[li];
-        let ty = [Ty::U8, Ty::I32, Ty::F64, Ty::Str, Ty::Nested][t];
+        let ty = if t >= 20 { [Ty::NestedEmpty, Ty::Unit][t - 20] } else { [Ty::U8, Ty::I32, Ty::F64, Ty::Str, Ty::Nested][t % 5] };
         let mut x = seed | 1;
         let mut r = move || {
             x ^= x << 13;
@@ -324,6 +348,7 @@ fn random_strategy() -> impl Strategy<Value = Case> {
             Ty::U8 => 256,
             Ty::F64 => 9,
             Ty::Nested => 256,
+            Ty::NestedEmpty | Ty::Unit => 1,
             _ => 1000,
         };
         let a: Vec<i32> = (0..n).map(|_| r().rem_euclid(modulus)).collect();
@@ -377,7 +402,7 @@ pub fn main() {
         Report {
             prop: PROP,
             level: "exploration",
-            rule: "case = (element type u8/i32/f64/String/nested GenericArray<u8,U3>, pair of arrays a, b of equal length). Exhaustive: all pairs over the alphabet {0,1,2} for N in 0..=4 (u8) and over {NaN,-0.0,0.0,1.0,inf} for N in 0..=3 (f64); random: proptest pairs biased to share a prefix (equal, differ from a random position on, differ at exactly one position, differ only in one of the last four positions); every array is also compared with itself for the 34-length lattice. \
+            rule: "case = (element type u8/i32/f64/String/nested GenericArray<u8,U3>/zero-sized GenericArray<u8,U0> (whose Hash still writes a length prefix) and arrays of those/(), pair of arrays a, b of equal length). Exhaustive: all pairs over the alphabet {0,1,2} for N in 0..=4 (u8) and over {NaN,-0.0,0.0,1.0,inf} for N in 0..=3 (f64); random: proptest pairs biased to share a prefix (equal, differ from a random position on, differ at exactly one position, differ only in one of the last four positions); every array is also compared with itself for the 34-length lattice. \
                    Oracle: the slices of the same elements: ==, !=, <, <=, >, >=, partial_cmp (None for NaN), cmp; a recording Hasher must see the identical sequence of write_* calls (call boundaries kept) from the array and from its slice; 15 Debug format specs must print the slice's output; HashMap (SipHash and a call-boundary-sensitive hasher) and BTreeMap keyed by arrays are looked up by &[T] through Borrow. \
                    non-trivial = N >= 1 and (shared prefix, NaN present, or equal pair); distinct = distinct (type, a, b)",
             exhaustive: false,
